@@ -40,10 +40,10 @@ def document_sets(r, n):
         b0 = docs.mutate(a0, r)
         if not isinstance(b0, (dict, list)):
             b0 = [b0]
+        a, b = noneless(a0), noneless(b0)
         if keep_null:
             a0 = [a0, None, {"nul": None}]
             b0 = [b0, None, {"nul": None, "k": 1}]
-        a, b = noneless(a0), noneless(b0)
         ea = docs.random_xml_element(r, 2)
         eb = docs.mutate_xml(ea, r)
         s = {}
@@ -64,8 +64,14 @@ def document_sets(r, n):
                     csv.writer(o).writerows(rows)
                     return o.getvalue().encode()
                 s[t] = (dump(rows_a), dump(rows_b))
-            elif t == "plist" or not keep_null:
+            elif t == "plist":
                 s[t] = (_cli.serialise(t, a, "A"), _cli.serialise(t, b, "B"))
+            elif not keep_null:
+                # no nulls here (null as plist is known finding F27 and would end the run before anything else is printed),
+                # but values no plist FILE could hold: integers beyond 64 bits, extreme floats, non-ASCII text
+                xa = [a, 2 ** 64, -(2 ** 63) - 1, 1e300, "caf\u00e9 \U0001F600"]
+                xb = [b, 2 ** 64 + 1, -(2 ** 63) - 1, 1e-300, "cafe \U0001F600"]
+                s[t] = (_cli.serialise(t, xa, "A"), _cli.serialise(t, xb, "B"))
             else:
                 s[t] = (_cli.serialise(t, a0, "A"), _cli.serialise(t, b0, "B"))
         sets.append(s)
